@@ -49,3 +49,38 @@ pub fn typst(n: &Narsese) -> Result<String, String> {
         Err(p) => Err(format!("PANIC: {p}")),
     }
 }
+
+/// Every public route into the lexical parser agrees on `s`: the method `NarseseFormat::parse`,
+/// the free function `impl_lexical::parse`, the method and the free function `parse_term`; and
+/// when the whole input is a bare term, `parse_term` returns that term.
+pub fn lexical_routes_agree(f: &F, s: &str) -> Result<(), String> {
+    use narsese::conversion::string::impl_lexical as il;
+    let r = quiet_catch(AssertUnwindSafe(|| {
+        let a = f.l.parse(s).map_err(|e| e.to_string());
+        let b = il::parse(f.l, s).map_err(|e| e.to_string());
+        let t1 = f.l.parse_term(s).map_err(|e| e.to_string());
+        let t2 = il::parse_term(f.l, s).map_err(|e| e.to_string());
+        (a, b, t1, t2)
+    }));
+    let (a, b, t1, t2) = r.map_err(|p| format!("PANIC: a lexical route panics on {s:?}: {p}"))?;
+    let same = |x: &Result<LexNarsese, String>, y: &Result<LexNarsese, String>| match (x, y) {
+        (Ok(p), Ok(q)) => p == q,
+        (Err(_), Err(_)) => true,
+        _ => false,
+    };
+    if !same(&a, &b) {
+        return Err(format!("{s:?}: NarseseFormat::parse gives {a:?} but impl_lexical::parse gives {b:?}"));
+    }
+    match (&t1, &t2) {
+        (Ok(p), Ok(q)) if p == q => {}
+        (Err(_), Err(_)) => {}
+        _ => return Err(format!("{s:?}: NarseseFormat::parse_term gives {t1:?} but impl_lexical::parse_term gives {t2:?}")),
+    }
+    if let Ok(LexNarsese::Term(t)) = &a {
+        match &t1 {
+            Ok(p) if p == t => {}
+            other => return Err(format!("{s:?}: parse gives the bare term {t:?} but parse_term gives {other:?}")),
+        }
+    }
+    Ok(())
+}
